@@ -16,7 +16,9 @@ type nodeHTML struct {
 
 func (n *nodeHTML) Execute(ctx *ExecutionContext, writer TemplateWriter) *Error {
 	res := n.token.Val
-	if tpl := ctx.executing; tpl != nil && tpl == n.tpl {
+	// the options of the template the text is written in (the executed template,
+	// one of its parents, an imported library) decide
+	if tpl := n.tpl; tpl != nil {
 		if tpl.Options.LStripBlocks && n.beforeBlockTag {
 			res = strings.TrimRight(res, "\t ")
 		}
